@@ -87,3 +87,27 @@ Proof.
   unfold run_top in Hnt. rewrite (sync_one_runs_plan now_far normalize_unix chunk_real) in Hnt.
   fold ls ld in Hnt. rewrite El in Hnt. eapply nt_prefix; exact Hnt.
 Qed.
+
+(* C03 end to end for the executable sync: in every kill state and at the end of every run, an existing entry
+   that is no longer what it was had the consent of its category. *)
+From RJ Require Import Proofs.ConsentAll.
+Theorem consent_executable cfg S D a ans bits ex ft s :
+  unique_keys S -> wf_fs S -> unique_keys D -> wf_fs D ->
+  let ls := list_fs now_far (excl_incl ex) normalize_unix S in
+  let ld := list_fs now_far (excl_incl ex) normalize_unix D in
+  (In s (sync_kill_states now_far normalize_unix chunk_real cfg S (world D a []) ans bits ls ld ft) \/
+   s = r_dest (run_top cfg S D a ans bits ex ft)) ->
+  forall p n, fget D p = Some n -> fget (d_fs s) p <> Some n ->
+    entry_consent cfg ans \/
+    ((exists m d m' d', n = NFile m d /\ fget (d_fs s) p = Some (NFile m' d')) /\ overwrite_consent cfg ans).
+Proof.
+  intros HuS HwS HuD HwD ls ld Hs p n HD Hch.
+  destruct (kill_states_touched_unconditional cfg S D a ans bits ex ft HuS HwS HuD HwD) as [T1 T2].
+  assert (HT : Touched (cf_fl cfg) S D
+                 (cmd_of_plan (snd (sync_plan now_far normalize_unix chunk_real cfg S (world D a []) ans bits ls ld)))
+                 (file_of_plan (snd (sync_plan now_far normalize_unix chunk_real cfg S (world D a []) ans bits ls ld))) s)
+    by (destruct Hs as [Hs| ->]; [apply T1; exact Hs|exact T2]).
+  exact (consent_end_to_end now_far (excl_incl ex) normalize_unix chunk_real cfg S (world D a []) ans bits ls ld
+           (list_fs_valid now_far (excl_incl ex) normalize_unix S HuS HwS)
+           (list_fs_valid now_far (excl_incl ex) normalize_unix D HuD HwD) HwD eq_refl s HT p n HD Hch).
+Qed.
